@@ -18,6 +18,11 @@ use std::collections::HashMap;
 use std::sync::atomic::{AtomicU64, Ordering};
 use std::sync::{Arc, Mutex};
 
+/// model peer 3 is the real peer with the largest id there is (PeerId(u64::MAX), the value the crate also uses as its
+/// "detached" sentinel): a registry treats it like any other id
+fn rid(p: u64) -> PeerId { PeerId(if p == 3 { u64::MAX } else { p }) }
+fn mid(id: PeerId) -> u64 { if id.0 == u64::MAX { 3 } else { id.0 } }
+
 #[derive(Default)]
 struct CapSink {
     got: Mutex<Vec<(String, Vec<u8>, u16)>>,
@@ -58,7 +63,7 @@ impl World {
         World { reg: PeerRegistry::new(), sinks: peers.iter().map(|p| (*p, Arc::new(CapSink::default()))).collect(), ser_hook: Mutex::new(None) }
     }
     fn handle(&self, p: u64) -> PeerHandle {
-        PeerHandle::new(PeerId(p), self.sinks[&p].clone())
+        PeerHandle::new(rid(p), self.sinks[&p].clone())
     }
     /// Perform op, return its result in the spec's uniform encoding (+ broadcast delivery facts).
     fn exec(&self, name: &str, p: u64, k: &str, serial: u64) -> (Value, Value, u64) {
@@ -70,12 +75,12 @@ impl World {
             }
             // the peer's transport closes; the registry is told nothing (its disconnect hook has not run yet)
             "close_sink" => { self.sinks[&p].closed.store(true, Ordering::SeqCst); (json!([]), Value::Null, 0) }
-            "remove" => (opt_peer(self.reg.remove(PeerId(p))), Value::Null, 0),
-            "alias" => (json!([if self.reg.alias(PeerId(p), k.to_string()) { 1 } else { 0 }]), Value::Null, 0),
-            "get" => (opt_peer(self.reg.get(PeerId(p))), Value::Null, 0),
+            "remove" => (opt_peer(self.reg.remove(rid(p))), Value::Null, 0),
+            "alias" => (json!([if self.reg.alias(rid(p), k.to_string()) { 1 } else { 0 }]), Value::Null, 0),
+            "get" => (opt_peer(self.reg.get(rid(p))), Value::Null, 0),
             "get_by" => (opt_peer(self.reg.get_by(k)), Value::Null, 0),
-            "key_for" => (json!(self.reg.key_for(PeerId(p)).into_iter().collect::<Vec<_>>()), Value::Null, 0),
-            "aliases_for" => (json!(self.reg.aliases_for(PeerId(p))), Value::Null, 0),
+            "key_for" => (json!(self.reg.key_for(rid(p)).into_iter().collect::<Vec<_>>()), Value::Null, 0),
+            "aliases_for" => (json!(self.reg.aliases_for(rid(p))), Value::Null, 0),
             "len" => {
                 (json!([self.reg.len()]), Value::Null, 0)
             }
@@ -103,7 +108,7 @@ impl World {
                     3 => beve::to_vec(&serial).unwrap(),
                     _ => hostile.clone(),
                 };
-                let mut keys: Vec<u64> = res.keys().map(|p| p.0).collect();
+                let mut keys: Vec<u64> = res.keys().map(|p| mid(*p)).collect();
                 keys.sort();
                 let mut bad = res.values().filter(|r| r.is_err()).count() as u64;
                 let mut deliv = vec![];
@@ -125,7 +130,7 @@ impl World {
     }
 }
 fn opt_peer(h: Option<PeerHandle>) -> Value {
-    json!(h.map(|x| x.peer_id().0).into_iter().collect::<Vec<_>>())
+    json!(h.map(|x| mid(x.peer_id())).into_iter().collect::<Vec<_>>())
 }
 
 // ---------------------------------------------------------------------------
@@ -180,7 +185,7 @@ fn observe(w: &World, g: &Graph) -> Value {
     for k in &g.keys {
         get_by.insert(k.clone(), w.exec("get_by", 0, k, 0).0);
     }
-    let mut peers: Vec<u64> = w.reg.peers().iter().map(|p| p.peer_id().0).collect();
+    let mut peers: Vec<u64> = w.reg.peers().iter().map(|p| mid(p.peer_id())).collect();
     peers.sort();
     json!({
         "get": per_peer(&|p| w.exec("get", p, "", 0).0),
